@@ -74,28 +74,50 @@ def decodeSess (j : Json) : Sess :=
       perrs := jnat f "perrs", spans := (jarr f "spans").toList.map spanOf,
       text := text, lns := HL.Text.lines (decodeText text),
       diskLns := HL.Text.lines (decodeText (jhex f "disk")) : FileJ }
-  let resolveds := (jarr j "resolveds").map fun e =>
-    let r := jget e "r"
-    let res : Option Resolved := if r.isNull then none else
+  let resOf := fun (r : Json) => (if r.isNull then none else
       some { primary := if (jget r "primary").isNull then none else some (tr (jnat r "primary")),
              files := (jarr r "files").toList.map (fun kv => match kv with
                | .arr a => (asStr a[0]!, tr (asNat a[1]!))
                | _ => ("", default)),
-             order := (jarr r "order").toList.map asStr }
-    (res, jstr e "pp", jbool e "ws")
+             order := (jarr r "order").toList.map asStr } : Option Resolved)
+  -- per requesting file: the workspace's journal with its root path, the journal stored for the
+  -- document's URI; the MODEL chooses (`resolvedWithPrimaryPath`), and with the journal the texts
+  -- positions are converted with (workspace view: the buffers of the open files)
+  let resolveds := (jarr j "resolveds").map fun e =>
+    let wsv : Option (Resolved × Path) := (resOf (jget e "ws")).map fun r => (r, jstr e "wsroot")
+    let c := resolvedWithPrimaryPath wsv (resOf (jget e "own")) (jstr e "cur")
+    let usedWs := match wsv with
+      | some (r, root) => wsContains r root (jstr e "cur")
+      | none => false
+    (c.1, c.2, usedWs)
   { mode := jstr j "mode", trees := trees, files := files, root := jstr j "root", resolveds := resolveds }
 
-/-- Tree-index view of a resolved journal (for coherence checks): path ↦ tree index. -/
+/-- The request was answered from the journal resolved for the document itself (no workspace,
+    or a document outside the root's tree): the label of the primary journal is its own path. -/
+def usedOwn (j : Json) (ri : Nat) : Bool :=
+  match (jarr j "resolveds")[ri]? with
+  | none => true
+  | some e =>
+    let ws := jget e "ws"
+    if ws.isNull then true else
+    let files := (jarr ws "files").toList.map (fun kv => match kv with
+      | .arr a => (asStr a[0]!, (default : Journal))
+      | _ => ("", default))
+    !wsContains ⟨none, files, []⟩ (jstr e "wsroot") (jstr e "cur")
+
+/-- Tree-index view of the resolved journal the request read (for coherence checks):
+    path ↦ tree index. -/
 def resolvedIdx (j : Json) (ri : Nat) : Option (List (Path × Nat)) :=
   match (jarr j "resolveds")[ri]? with
   | none => none
   | some e =>
-    let r := jget e "r"
+    let own := usedOwn j ri
+    let r := if own then jget e "own" else jget e "ws"
     if r.isNull then none else
     let fs := (jarr r "files").toList.map (fun kv => match kv with
       | .arr a => (asStr a[0]!, asNat a[1]!)
       | _ => ("", 0))
-    let pp := jstr e "pp"
+    let pp := if own then jstr e "cur" else jstr e "wsroot"
     let fs := if (jget r "primary").isNull || pp == "" then fs
       else (pp, jnat r "primary") :: fs.filter (·.1 != pp)
     some fs
@@ -187,17 +209,17 @@ def explainFile (spans : List SpanM) (nodes : List Span) (kind : Kind) (name : B
           | some r => some (if rs.contains r then rs else r :: rs)
           | none => none) (some rs0)
 
-/-- Coherence of the resolved view with the truth for one file: `none` = coherent. -/
-def staleReason (s : Sess) (q : ReqJ) (view : List (Path × Nat)) (f : FileJ) : Option String :=
+/-- Coherence of the resolved view with the truth for one file: `none` = coherent.  `own`: the
+    request was answered from the journal resolved for the document itself. -/
+def staleReason (own : Bool) (q : ReqJ) (view : List (Path × Nat)) (f : FileJ) : Option String :=
   match view.find? (·.1 == f.path) with
   | none =>
-    if s.mode == "single" && f.path != q.cur then some "loader-cache-drops-subtree" else some "?"
+    if own && f.path != q.cur then some "loader-cache-drops-subtree" else some "?"
   | some (_, i) =>
     if i == f.tree then none
     else if i == f.diskTree then
-      if s.mode == "single" && f.path != q.cur && (f.how == "open-diff" || f.how == "changed" || f.how == "changed-ranged" || f.how == "changed-neutral") then
+      if own && f.path != q.cur && (f.how == "open-diff" || f.how == "changed" || f.how == "changed-ranged" || f.how == "changed-neutral") then
         some "unsaved-include-not-seen"
-      else if s.mode == "ws" && f.how == "open-diff" then some "didopen-stale-workspace"
       else some "?"
     else some "?"
 
@@ -251,7 +273,7 @@ def judge (s : Sess) (j : Json) (q : ReqJ) (incl : Bool) (implLocs : List Loc) (
         scopeFiles.foldl (fun acc f => match acc with
           | none => none
           | some rs =>
-            match staleReason s q view f with
+            match staleReason (usedOwn j q.res) q view f with
             | some "?" => none
             | some r =>
               -- a stale or missing tree only matters when the symbol occurs in either version
